@@ -27,6 +27,23 @@ def plan(tier):
 
 
 def gen_case(rng, tier, idx):
+    if idx % 5 == 4:
+        # wide class: widths up to 64, known satisfiable through a planted witness; judged by reference evaluation of the
+        # returned values, the planted SAT label and pointwise comparison on sampled points around witness and solution
+        for _ in range(20):
+            try:
+                prog, g, wit = gen.wide_program(rng)
+                gen.validate(prog)
+            except Exception:
+                continue
+            hist = [{"op": "randomize", "o": "o0"} for _k in range(rng.randint(2, 4))]
+            scope = gen.scope_of(prog, "C0")
+            for _k in range(rng.randint(0, 2)):
+                st = [s for s in [g.stmt(scope, depth=1, sdepth=0, allow=("e",))] if s]
+                if st:
+                    hist.insert(rng.randrange(len(hist) + 1), {"op": "with", "o": "o0", "inline": st})
+            return {"prog": prog, "hist": hist, "seed": rng.randint(1, 1 << 30), "max_points": 1024, "wide": True, "witness": wit}
+        return None
     max_bits = 10 if tier == "quick" else rng.choice([8, 10, 12, 14])
     for _ in range(20):
         prog, g = gen.scalar_program(rng, max_bits=max_bits)
